@@ -1,4 +1,321 @@
+import Iauthd.Log.Spec
 import Drv.Util
-def main (_args : List String) : IO UInt32 := do
-  IO.eprintln "driver not implemented yet"
-  return 2
+/-
+  drv_log model|spec < ops
+  One output line per input line, same record syntax as harness/h_log.c.
+
+    read <hex body>            model: rc <n> con=<hex> | exit 1 con=<hex>      spec: -
+    msg <hexfac> <sev> <hex>   model: ok con=<hex>     | exit 1 con=<hex>      spec: -
+    verbosity <n>              model: ok                                        spec: -
+    files                      files <hexname>:<hexline>,… …   (sorted by name)
+    after the process died     dead (files still answers)
+
+  The config file body is read by a deliberately small parser for the layout the generators
+  use (`name { "key" "value"; "key" ("v", "v"); };`, no escapes, no comments, every entry
+  terminated by `;`).  Anything else is answered `unsupported …`, never guessed.  The two syntax
+  errors the generators produce on purpose (a stray `!` where an entry starts, end of file
+  inside a block) are recognised with their line number, because conf_read logs them.
+-/
+open Iauthd Iauthd.Log
+
+namespace Drv.LogDrv
+
+/-! ### the small config parser -/
+
+inductive Tok where
+  | str (b : Bytes) | lbrace | rbrace | lparen | rparen | comma | semi
+  | bad (c : UInt8)        -- a byte that cannot start a token
+  | eof
+  deriving Repr, BEq, DecidableEq
+
+def isTokenChar (c : UInt8) : Bool :=
+  (48 ≤ c.toNat && c.toNat ≤ 57) || (65 ≤ c.toNat && c.toNat ≤ 90) || (97 ≤ c.toNat && c.toNat ≤ 122) ||
+  c == 45 || c == 46 || c == 95 || c == 35
+
+structure Lx where
+  rest : Bytes
+  line : Nat := 1
+  sawNl : Bool := false     -- a newline was skipped before this token
+
+inductive LexErr | unsupported (why : String)
+
+/-- skip blanks (counting newlines); comments are not supported -/
+partial def skipWs (l : Lx) : Lx :=
+  match l.rest with
+  | c :: cs =>
+    if c == 10 then skipWs { rest := cs, line := l.line + 1, sawNl := true }
+    else if Bytes.isSpace c then skipWs { l with rest := cs }
+    else l
+  | [] => l
+
+partial def takeWhile (p : UInt8 → Bool) : Bytes → Bytes × Bytes
+  | c :: cs => if p c then let (a, b) := takeWhile p cs; (c :: a, b) else ([], c :: cs)
+  | [] => ([], [])
+
+/-- next token and the lexer after it -/
+def next (l0 : Lx) : Except String (Tok × Lx) :=
+  let l := skipWs { l0 with sawNl := false }
+  match l.rest with
+  | [] => .ok (.eof, l)
+  | c :: cs =>
+    if c == 34 then
+      let (body, after) := takeWhile (· != 34) cs
+      if body.contains 92 then .error "escape in quoted string"
+      else match after with
+        | _ :: after' => .ok (.str body, { l with rest := after' })
+        | [] => .error "unterminated quote"
+    else if isTokenChar c then
+      let (w, after) := takeWhile isTokenChar (c :: cs)
+      .ok (.str w, { l with rest := after })
+    else if c == 123 then .ok (.lbrace, { l with rest := cs })
+    else if c == 125 then .ok (.rbrace, { l with rest := cs })
+    else if c == 40 then .ok (.lparen, { l with rest := cs })
+    else if c == 41 then .ok (.rparen, { l with rest := cs })
+    else if c == 44 then .ok (.comma, { l with rest := cs })
+    else if c == 59 then .ok (.semi, { l with rest := cs })
+    else if c == 47 then .error "comment"
+    else .ok (.bad c, l)
+
+inductive Val where
+  | str (v : Bytes) | list (vs : List Bytes) | obj (es : List (Bytes × Val))
+
+inductive ParseRes where
+  | ok (logs : Option (List RawEntry))
+  | err (code : Int) (line : Nat)
+  | unsupported (why : String)
+
+inductive PErr | syn (code : Int) (line : Nat) | unsup (why : String)
+
+instance : Inhabited PErr := ⟨.unsup "?"⟩
+instance : Inhabited Val := ⟨.str []⟩
+instance : Inhabited Lx := ⟨{ rest := [] }⟩
+
+abbrev P := Except PErr
+
+def tok (l : Lx) : P (Tok × Lx) :=
+  match next l with
+  | .ok r => .ok r
+  | .error e => .error (.unsup e)
+
+/-- `;` must follow directly (the real parser also takes a newline; the generators do not use that) -/
+def expectSemi (l : Lx) : P Lx := do
+  let (t, l') ← tok l
+  if t == .semi && !l'.sawNl then pure l' else throw (.unsup "entry not terminated by `;`")
+
+mutual
+  /-- entries until `}` (depth > 0) or end of input (depth = 0) -/
+  partial def entries (depth : Nat) (l : Lx) (acc : List (Bytes × Val)) : P (List (Bytes × Val) × Lx) := do
+    let (t, l1) ← tok l
+    match t with
+    | .eof => if depth == 0 then pure (acc.reverse, l1) else throw (.syn (-1) l1.line)
+    | .rbrace => if depth == 0 then throw (.syn (-2) l1.line) else pure (acc.reverse, l1)
+    | .str name =>
+      let (v, l2) ← value depth l1
+      let l3 ← expectSemi l2
+      entries depth l3 ((name, v) :: acc)
+    | _ => throw (.syn (-2) l1.line)      -- conf_parse_string: "Expected a string or bareword token"
+
+  partial def value (depth : Nat) (l : Lx) : P (Val × Lx) := do
+    let (t, l1) ← tok l
+    match t with
+    | .lbrace =>
+      let (es, l2) ← entries (depth + 1) l1 []
+      pure (.obj es, l2)
+    | .lparen =>
+      let (t2, l2) ← tok l1
+      if t2 == .rparen then pure (.list [], l2) else
+      match t2 with
+      | .str v => listTail l2 [v]
+      | _ => throw (.unsup "list element")
+    | .str v => pure (.str v, l1)
+    | _ => throw (.unsup "value")
+
+  partial def listTail (l : Lx) (acc : List Bytes) : P (Val × Lx) := do
+    let (t, l1) ← tok l
+    match t with
+    | .rparen => pure (.list acc.reverse, l1)
+    | .comma =>
+      let (t2, l2) ← tok l1
+      match t2 with
+      | .str v => listTail l2 (v :: acc)
+      | _ => throw (.unsup "list element after comma")
+    | _ => throw (.unsup "list separator")
+end
+
+def logsEntries (top : List (Bytes × Val)) : P (Option (List RawEntry)) := do
+  let mut found := false
+  let mut out : List RawEntry := []
+  for (n, v) in top do
+    if ciEq n [108, 111, 103, 115] then      -- "logs", CONF_OBJECT
+      match v with
+      | .obj es =>
+        found := true
+        for (k, cv) in es do
+          match cv with
+          | .str s => out := out ++ [⟨k, .str, [s]⟩]
+          | .list vs => out := out ++ [⟨k, .list, vs⟩]
+          | .obj _ => throw (.unsup "object inside logs")
+      | _ => pure ()
+  return if found then some out else none
+
+def parseBody (body : Bytes) : ParseRes :=
+  if body.isEmpty then .unsupported "empty file" else
+  if body.contains 0 then .unsupported "NUL byte" else
+  match (do let (top, _) ← entries 0 { rest := body } []; logsEntries top : P _) with
+  | .ok r => .ok r
+  | .error (.syn c ln) => .err c ln
+  | .error (.unsup w) => .unsupported w
+
+/-! ### rendering -/
+
+def natBytes (n : Nat) : Bytes := (toString n).toList.map (fun c => UInt8.ofNat c.toNat)
+
+def bExpectedString : Bytes := Bytes.ofString "Expected a string or bareword token on line "
+def bPrematureEof : Bytes := Bytes.ofString "Premature end of file on line "
+def bOf : Bytes := Bytes.ofString " of "
+def bConfName : Bytes := Bytes.ofString "../conf"
+
+def confErrorMsg (code : Int) (line : Nat) : Bytes :=
+  (if code == -1 then bPrematureEof else bExpectedString) ++ natBytes line ++ bOf ++ bConfName ++ [46]
+
+/-- fopen(path, "a") in the (initially empty) case directory -/
+def canOpen (p : Bytes) : Bool :=
+  !p.isEmpty && !p.contains 47 && p != [46] && p != [46, 46] && p.length ≤ 255
+
+/-- unsigned lexicographic order (strcmp) -/
+def bytesLt : Bytes → Bytes → Bool
+  | [], [] => false
+  | [], _ :: _ => true
+  | _ :: _, [] => false
+  | a :: as, b :: bs => if a.toNat < b.toNat then true else if a.toNat > b.toNat then false else bytesLt as bs
+
+def insertSorted (f : Bytes × List String) : List (Bytes × List String) → List (Bytes × List String)
+  | [] => [f]
+  | x :: xs => if bytesLt f.1 x.1 then f :: x :: xs else x :: insertSorted f xs
+
+abbrev Files := List (Bytes × List String)   -- name ↦ rendered physical lines
+
+def touch (fs : Files) (p : Bytes) : Files :=
+  if fs.any (·.1 == p) then fs else insertSorted (p, []) fs
+
+def appendLines (fs : Files) (p : Bytes) (ls : List String) : Files :=
+  (touch fs p).map fun (n, old) => if n == p then (n, old ++ ls) else (n, old)
+
+/-- one fprintf of `text\n`: physical lines; continuation lines carry no timestamp -/
+def physical (text : Bytes) : List String :=
+  match Spec.splitOn 10 text with
+  | [] => []
+  | h :: t => Bytes.toHex h :: t.map (fun x => "!" ++ Bytes.toHex x)
+
+def renderFiles (fs : Files) : String :=
+  "files" ++ String.join (fs.map fun (n, ls) => " " ++ Bytes.toHex n ++ ":" ++ ",".intercalate ls)
+
+def applyEvs (fs : Files) (evs : List Ev) : Files × Bytes :=
+  evs.foldl (fun (acc : Files × Bytes) ev =>
+    match ev with
+    | .opened p => (touch acc.1 p, acc.2)
+    | .line p t => (appendLines acc.1 p (physical t), acc.2)
+    | .console t => (acc.1, acc.2 ++ t)) (fs, [])
+
+/-! ### the two modes -/
+
+structure MSt where
+  c : ConfSt := ConfSt.init
+  files : Files := []
+
+structure SSt where
+  s : Spec.St := {}
+
+/-- drain the events of the model run into the file map; returns the console bytes -/
+def drain (m : MSt) : MSt × Bytes :=
+  let (fs, con) := applyEvs m.files m.c.run.evs
+  ({ c := { m.c with run := { m.c.run with evs := [] } }, files := fs }, con)
+
+def status (m : MSt) (okWord : String) (con : Bytes) : String :=
+  match m.c.run.exit with
+  | some n => s!"exit {n} con={Bytes.toHex con}"
+  | none => s!"{okWord} con={Bytes.toHex con}"
+
+def parseSev (s : String) : Option Nat :=
+  match s.toNat? with
+  | some n => if n < 6 then some n else none
+  | none => none
+
+def stepModel (m : MSt) (line : String) : MSt × String :=
+  match fields line with
+  | ["files"] => (m, renderFiles m.files)
+  | ["read", hx] =>
+    if m.c.run.exit.isSome then (m, "dead") else
+    match parseBody (Bytes.ofHex hx) with
+    | .unsupported w => (m, "unsupported " ++ w)
+    | .err code ln =>
+      let c := { m.c with run := m.c.run.log bConfig sevError (confErrorMsg code ln) }
+      let (m', con) := drain { m with c }
+      (m', status m' s!"rc {code}" con)
+    | .ok file =>
+      let (m', con) := drain { m with c := load canOpen m.c file }
+      (m', status m' "rc 0" con)
+  | ["msg", fac, sev, txt] =>
+    match parseSev sev with
+    | none => (m, "bad-op")
+    | some sv =>
+      if m.c.run.exit.isSome then (m, "dead") else
+      let (m', con) := drain { m with c := message m.c (Bytes.cstr (Bytes.ofHex fac)) sv (Bytes.cstr (Bytes.ofHex txt)) }
+      (m', status m' "ok" con)
+  | ["verbosity", n] =>
+    if m.c.run.exit.isSome then (m, "dead") else
+    let v := n.toInt?.getD 0
+    ({ m with c := { m.c with run := { m.c.run with st := { m.c.run.st with verbosity := v } } } }, "ok")
+  | _ => (m, "bad-op")
+
+def specFiles (s : Spec.St) : String :=
+  let fs : Files := s.files.foldl (fun acc (p, ls) => appendLines acc p (ls.flatMap physical)) []
+  renderFiles fs
+
+def stepSpec (st : SSt) (line : String) : SSt × String :=
+  match fields line with
+  | ["files"] => (st, specFiles st.s)
+  | ["read", hx] =>
+    if st.s.dead then (st, "dead") else
+    match parseBody (Bytes.ofHex hx) with
+    | .unsupported w => (st, "unsupported " ++ w)
+    | .err _ _ => (st, "-")                       -- a failed load leaves the current section
+    | .ok file => ({ s := Spec.onLoad st.s file }, "-")
+  | ["msg", fac, sev, txt] =>
+    match parseSev sev with
+    | none => (st, "bad-op")
+    | some sv =>
+      if st.s.dead then (st, "dead") else
+      ({ s := Spec.onMessage st.s (Bytes.cstr (Bytes.ofHex fac)) sv (Bytes.cstr (Bytes.ofHex txt)) }, "-")
+  | ["verbosity", _] => (st, if st.s.dead then "dead" else "-")
+  | _ => (st, "bad-op")
+
+end Drv.LogDrv
+
+open Drv Drv.LogDrv in
+def main (args : List String) : IO UInt32 := do
+  let useSpec := args.head? == some "spec"
+  let lines ← readLines
+  let mut out : Array String := Array.mkEmpty lines.size
+  if useSpec then
+    let mut st : SSt := {}
+    for l in lines do
+      if l.startsWith "case " then
+        st := {}
+        out := out.push l
+      else
+        let (st', o) := stepSpec st l
+        st := st'
+        out := out.push o
+  else
+    let mut st : MSt := {}
+    for l in lines do
+      if l.startsWith "case " then
+        st := {}
+        out := out.push l
+      else
+        let (st', o) := stepModel st l
+        st := st'
+        out := out.push o
+  emit (← IO.getStdout) out
+  return 0
